@@ -33,6 +33,8 @@ type Prog struct {
 	cg     *callgraph.Graph
 	medges map[*ssa.Function][]*ssa.Function
 	tws    []textWriteSite
+	stab   [][2]string
+	vset   *variadicSet
 	proles *PatchRoles
 	Sizes  types.Sizes
 }
@@ -322,4 +324,107 @@ func (p *Prog) TypesInfoFor(f *ssa.Function) *types.Info {
 		return nil
 	}
 	return pk.TypesInfo
+}
+
+// stableTable maps the display name of every module function that carries an unexported name to a rename-stable
+// descriptor: package, receiver shape, signature types and the ordinal among same-shaped unexported functions of the
+// package in source order. Known findings and suppressions are also matched through it, so that renaming an unexported
+// function does not turn a recorded finding into a fresh alarm.
+func (p *Prog) stableTable() [][2]string {
+	if p.stab != nil {
+		return p.stab
+	}
+	type ent struct {
+		f    *ssa.Function
+		desc string
+		file string
+		off  int
+	}
+	var ents []ent
+	for _, f := range p.Funcs {
+		if !strings.HasPrefix(pkgPathOf(f), Mod) || f.Object() == nil || f.Synthetic != "" {
+			continue
+		}
+		private := !f.Object().Exported()
+		recv := ""
+		if rv := f.Signature.Recv(); rv != nil {
+			t := rv.Type()
+			ptr := ""
+			if pt, ok := t.(*types.Pointer); ok {
+				t, ptr = pt.Elem(), "*"
+			}
+			if nt, ok := t.(*types.Named); ok {
+				if nt.Obj().Exported() {
+					recv = "(" + ptr + nt.Obj().Name() + ")"
+				} else {
+					recv = "(" + ptr + "~)"
+					private = true
+				}
+			}
+		}
+		if !private {
+			continue
+		}
+		q := func(pk *types.Package) string { return pk.Name() }
+		var sb strings.Builder
+		sb.WriteString(relPkg(f) + "." + recv + "~func(")
+		for i := 0; i < f.Signature.Params().Len(); i++ {
+			if i > 0 {
+				sb.WriteString(",")
+			}
+			sb.WriteString(types.TypeString(f.Signature.Params().At(i).Type(), q))
+		}
+		sb.WriteString(")(")
+		for i := 0; i < f.Signature.Results().Len(); i++ {
+			if i > 0 {
+				sb.WriteString(",")
+			}
+			sb.WriteString(types.TypeString(f.Signature.Results().At(i).Type(), q))
+		}
+		sb.WriteString(")")
+		pos := p.Fset.Position(f.Pos())
+		ents = append(ents, ent{f, sb.String(), filepath.Base(pos.Filename), pos.Offset})
+	}
+	sort.Slice(ents, func(i, j int) bool {
+		if ents[i].desc != ents[j].desc {
+			return ents[i].desc < ents[j].desc
+		}
+		if ents[i].file != ents[j].file {
+			return ents[i].file < ents[j].file
+		}
+		return ents[i].off < ents[j].off
+	})
+	var out [][2]string
+	n := 0
+	for i, e := range ents {
+		if i > 0 && ents[i-1].desc == e.desc {
+			n++
+		} else {
+			n = 0
+		}
+		out = append(out, [2]string{shortName(e.f), fmt.Sprintf("%s#%d", e.desc, n)})
+	}
+	// longest display names first so that a name that is a prefix of another is not replaced inside it
+	sort.Slice(out, func(i, j int) bool { return len(out[i][0]) > len(out[j][0]) })
+	p.stab = out
+	return out
+}
+
+// StableConstruct rewrites a construct string, replacing display names of unexported functions by their stable descriptors.
+func (p *Prog) StableConstruct(s string) string {
+	for _, e := range p.stableTable() {
+		if strings.Contains(s, e[0]) {
+			// only whole-name occurrences: the next character must not continue an identifier
+			idx := strings.Index(s, e[0])
+			end := idx + len(e[0])
+			if end < len(s) {
+				c := s[end]
+				if c == '_' || c == '$' || (c >= '0' && c <= '9') || (c >= 'a' && c <= 'z') || (c >= 'A' && c <= 'Z') {
+					continue
+				}
+			}
+			s = s[:idx] + e[1] + s[end:]
+		}
+	}
+	return s
 }
